@@ -320,7 +320,8 @@ ElemNumber::findPrecedingOrAncestorOrSelf(
 
     while (thePos != 0)
     {
-        if (0 != fromMatchPattern)
+        // Only a node before the current node ends the search...
+        if (0 != fromMatchPattern && thePos != context)
         {
             if (fromMatchPattern->getMatchScore(
                     thePos,
@@ -676,12 +677,7 @@ ElemNumber::getPreviousNode(
                 next = pos->getParentNode();
 
                 if(0 != next &&
-                   (next->getNodeType() == XalanNode::DOCUMENT_NODE ||
-                    (0 != fromMatchPattern &&
-                        fromMatchPattern->getMatchScore(
-                            next,
-                            *this,
-                            executionContext) != XPath::eMatchScoreNone)))
+                   next->getNodeType() == XalanNode::DOCUMENT_NODE)
                 {
                     pos = 0; // return 0 from function.
 
@@ -700,6 +696,21 @@ ElemNumber::getPreviousNode(
                     if(0 != child)
                         next = child;
                 }
+            }
+
+            // Only nodes after the first node before the current
+            // node that matches the from pattern are counted, and
+            // that node may be anywhere, not just an ancestor...
+            if(0 != next &&
+               0 != fromMatchPattern &&
+               fromMatchPattern->getMatchScore(
+                    next,
+                    *this,
+                    executionContext) != XPath::eMatchScoreNone)
+            {
+                pos = 0; // return 0 from function.
+
+                break; // from while loop
             }
 
             pos = next;
